@@ -37,6 +37,7 @@ type KnownSpec struct {
 	Sig       *string  `json:"sig,omitempty"`
 	SigPrefix *string  `json:"sig_all_frames_prefix,omitempty"`
 	Kinds     []string `json:"policy_kinds,omitempty"` // policy kinds the scenario must use
+	BothCtx   bool     `json:"adapter_both_contexts,omitempty"` // adapter scenario with non-background request and executor contexts
 }
 
 func (k *KnownSpec) matches(v *Violation, sc *Scenario) bool {
@@ -55,6 +56,12 @@ func (k *KnownSpec) matches(v *Violation, sc *Scenario) bool {
 			if !strings.HasPrefix(strings.TrimSpace(f), *k.SigPrefix) {
 				return false
 			}
+		}
+	}
+	if k.BothCtx {
+		a := sc.Adapter
+		if a == nil || a.ReqCtx == ACtxBackground || a.ExecCtx == ACtxBackground || a.ExecCtx == ACtxNone {
+			return false
 		}
 	}
 	for _, kind := range k.Kinds {
@@ -362,6 +369,14 @@ func (c *checkCtx) faults() int {
 		}
 		for _, e := range v.FnEnds {
 			if e.Err != nil || e.L == 1 {
+				n++
+			}
+		}
+	}
+	if c.Res.Sc.Adapter != nil {
+		for i := range c.Res.Log.Ev {
+			e := &c.Res.Log.Ev[i]
+			if e.Kind == EvAdapter && (e.L == AdCallerCancel || (e.L == AdAttemptEnd && (e.Err != nil || e.B >= 400 || (c.Res.Sc.Adapter.Proto != "http" && e.B != 0)))) {
 				n++
 			}
 		}
